@@ -170,7 +170,7 @@ func init() {
 			job(sc(sim.EntCfg("c02-ent-k"+itoa(pick(tier, 6, 7))+"-cap1", pick(tier, 6, 7), 1, fBNew|fBRem|fReset, oBasic).P("C02")), 0, 4),
 			job(sc(sim.EntCfg("c02-ent-k5-cap2-illegal", 5, 2, fBNew|fBRem|fReset|fIll, oBasic).P("C02")), 0, 1),
 			job(sc(sim.CoreCfg("c02-core-k4-cap1", 4, 1, nil, fMove|fBNew|fBRem|fReset|fBExch, oBasic).P("C02")), pick(tier, 5, 7), 2),
-			job(sc(sim.RelCfg("c02-rel-k4-cap1", 0, 4, 0, 1, fBld|fMove|fRet|fBRem|fReset|fBNew, oBasic).P("C02")), pick(tier, 5, 7), 2),
+			job(sc(sim.RelCfg("c02-rel-k4-cap1", 0, 4, 0, 1, fBld|fMove|fRet|fBRem|fReset|fBNew|fIll, oBasic).P("C02")), pick(tier, 5, 7), 2),
 			job(sc(sim.BoundaryEntitiesCfg("c02-boundary-64-entities", 62, 4, 128, fBNew|fBRem|fReset, oBasic).P("C02")), pick(tier, 4, 5), 0.5),
 			job(sc(sim.BoundaryEntitiesCfg("c02-boundary-64-entities-cap1", 62, 4, 1, fBNew|fBRem|fRet, oBasic).P("C02")), pick(tier, 3, 4), 0.5),
 			job(sc(sim.BoundaryEntitiesCfg("c02-boundary-128-entities", 124, 4, 128, fBNew|fBRem|fReset, oBasic).P("C02")), pick(tier, 4, 5), 0.5),
@@ -194,6 +194,8 @@ func init() {
 			job(sc(sim.RelCfg("c03-rel-k4-batchq", 0, 4, 0, 8, fBld|fBSet|fBExch|fBNew|fQ, oBasic).P("C03")), pick(tier, 5, 7), 3),
 			job(sc(sim.CoreCfg("c03-core-k4-batchq", 4, 1, nil, fMove|fBExch|fBNew|fQ, oBasic).P("C03")), pick(tier, 4, 6), 2),
 			job(sc(sim.BoundaryNodesCfg("c03-boundary-34-nodes-iter", 1, fMove|fReg, oDeep).P("C03")), pick(tier, 2, 3), 1),
+			job(sc(sim.CoreCfg("c03-core-k3-ids-63-64-128-iter", 3, 8, []int{63, 0, 63, 0}, fMove|fReg, oDeep).P("C03")), pick(tier, 4, 5), 1),
+			job(sc(sim.CoreCfg("c03-core-k3-ids-0-191-255-iter", 3, 8, []int{0, 190, 62, 0}, fMove|fReg, oDeep).P("C03")), pick(tier, 3, 5), 1),
 			job(sc(sim.BoundaryTablesCfg("c03-boundary-33-tables-iter", 1, fRet|fReg, oDeep).P("C03")), pick(tier, 2, 3), 1),
 		}
 	}, func(f *wx.Failure, _ string) bool {
@@ -219,8 +221,20 @@ func init() {
 			job(sc(sim.RelCfg("c05-rel-k4-1p-saturating", 0, 4, 1, 8, fBld|fMove|fRet, oBasic).P("C05")), 0, 3),
 			job(sc(sim.RelCfg("c05-rel-k3-batch", 0, 3, 0, 8, fBld|fRet|fBSet|fBExch|fRelX|fBNew|fQ|fIll, oBasic).P("C05")), pick(tier, 4, 6), 3),
 			job(sc(sim.Rel2Cfg("c05-rel2-k3-batch", 3, 0, 1, fBld|fRel|fBSet|fBExch|fRelX, oBasic).P("C05")), pick(tier, 4, 6), 2),
+			job(sc(sim.RelCfg("c05-rel-k4-batch-retarget", 0, 4, 0, 8, fBld|fRet|fBSet|fMove, oBasic).P("C05")), pick(tier, 6, 8), 2),
+			job(sc(sim.RichOrphanCfg("c05-rich-orphan", 3, false, fMove|fRet|fRelX, oBasic).P("C05")), pick(tier, 4, 5), 1),
 		}
-	}, acceptProps("C05"))
+	}, func(f *wx.Failure, last string) bool {
+		if f.Prop == "" || f.Prop == "C05" {
+			return true
+		}
+		// a corrupted entity index or table right after an operation that sets or moves relation targets
+		switch last {
+		case "Relations.Set", "Relations.Exchange", "Batch.SetRelation", "Batch.SetRelationQ", "Relations.ExchangeBatch", "Relations.ExchangeBatchQ", "Builder.New", "Builder.Add":
+			return strings.HasPrefix(f.Sig, "invariant:")
+		}
+		return false
+	})
 
 	// ------------------------------------------------------------------ C06 target death / table recycling
 	wxCheck("C06", 90, 1800, func(tier string) []runner.Job {
@@ -235,6 +249,7 @@ func init() {
 			job(sc(sim.BoundaryTablesCfg("c06-boundary-33-tables", 2, fMove|fRet|fBRem, oBasic).P("C06")), pick(tier, 3, 4), 1),
 			job(sc(sim.RelCfg("c06-rel-k4-any-reg-reset", 0, 4, 0, 8, fBld|fReg|fReset|fRet, oBasic).P("C06")), pick(tier, 6, 8), 2),
 			job(sc(sim.RichRelCfg("c06-rich-two-nodes", 2, true, fMove|fRet|fBRem|fReset, oBasic).P("C06")), pick(tier, 4, 5), 2),
+			job(sc(sim.RichOrphanCfg("c06-rich-orphan", 3, false, fMove|fRet, oBasic).P("C06")), pick(tier, 4, 6), 2),
 		}
 		if tier == "thorough" {
 			js = append(js, featurePairs("C06", "c06-k4", fBld, 4, 8, nil)...)
@@ -275,6 +290,7 @@ func init() {
 			}()), pick(tier, 5, 7), 1),
 			job(sc(sim.LogicCfg("c07-logic-k3", 3, fMove|fReg|fReset, oBasic).P("C07")), pick(tier, 5, 7), 1),
 			job(sc(sim.RichRelCfg("c07-rich-two-nodes-registered", 2, true, fMove|fRet|fBRem|fReset|fPlain, oBasic).P("C07")), pick(tier, 4, 5), 2),
+			job(sc(sim.RichOrphanCfg("c07-rich-orphan-registered", 3, true, fMove|fRet|fBRem|fPlain, oBasic).P("C07")), pick(tier, 4, 6), 1),
 			job(sc(sim.BoundaryTablesCfg("c07-boundary-33-tables", 2, fMove|fRet|fBRem|fReg|fPlain, oBasic).P("C07")), pick(tier, 3, 4), 1),
 			job(sc(sim.BoundaryNodesCfg("c07-boundary-34-nodes", 1, fMove|fReg|fBExch|fPlain, oBasic).P("C07")), pick(tier, 2, 3), 1),
 		}
